@@ -229,3 +229,37 @@ pub fn many_frames_cases(thorough: bool) -> Vec<StreamCase> {
     }
     v
 }
+
+/// `Stream::write` into the word-backed in-memory sink (behind 0..2 stray bytes, so that it is not word-aligned) and into
+/// a user sink that implements only the required operations must give the bytes `ByteSink` received.
+pub fn other_sinks_agree(stream: &Stream, bytes: &[u8], seed: u64) -> Result<(), (String, String)> {
+    use flacenc::bitsink::{BitSink, MemSink};
+    use flacenc::component::BitRepr;
+    let r = catch(|| -> Result<Option<String>, String> {
+        let mut w = MemSink::<u64>::new();
+        let lead = (seed % 3) as usize;
+        for _ in 0..lead {
+            w.write::<u8>(0xA7).map_err(|e| format!("{e:?}"))?;
+        }
+        stream.write(&mut w).map_err(|e| format!("MemSink<u64>: {e:?}"))?;
+        let mut b = vec![0u8; (w.len() + 7) / 8];
+        w.write_to_byte_slice(&mut b);
+        if b[lead..] != bytes[..] {
+            return Ok(Some(format!("MemSink<u64> (after {lead} leading bytes)")));
+        }
+        if bytes.len() <= 60_000 {
+            let mut u = crate::oracle::bits::MinimalSink::new();
+            stream.write(&mut u).map_err(|e| format!("user sink: {e:?}"))?;
+            if u.model.to_bytes() != bytes {
+                return Ok(Some("a user sink with the default methods".into()));
+            }
+        }
+        Ok(None)
+    });
+    match r {
+        Ok(Ok(None)) => Ok(()),
+        Ok(Ok(Some(which))) => Err(("bytes-depend-on-sink".into(), format!("Stream::write into {which} yields other bytes than into ByteSink"))),
+        Ok(Err(e)) => Err(("write-error".into(), e)),
+        Err(p) => Err((p.sig(), format!("panic while writing into another sink type: {} at {}", p.msg, p.loc))),
+    }
+}
